@@ -83,8 +83,8 @@ CHECKS = {
         text="The finite parts of the domain are enumerated completely on every run; random decorated / Unicode strings probe from_abbr beyond length 2.",
         design="4/C16"),
     "C17": dict(
-        technique="property-based testing (proptest) of serde round trips (value tree and JSON text) with bit-identity and injectivity oracles, in builds with the crate's serde feature",
-        text="Random search over catalogue types x units x adversarial amounts (17 significant digits, integers beyond 2^53, -0.0, subnormals, 18 fractional digits, 36-digit coefficients, trailing zeros) in f64+serde and fpdec+serde builds; every unit of every type is also enumerated once.",
+        technique="property-based testing (proptest) of serde round trips (value tree and JSON text) with bit-identity and injectivity oracles, in builds with the crate's serde feature (with and without std)",
+        text="Random search over catalogue types x units x adversarial amounts (17 significant digits, integers beyond 2^53, -0.0, subnormals, 18 fractional digits, 36-digit coefficients, trailing zeros) in f64+serde and fpdec+serde builds, each with and without the crate's std feature; every unit of every type is also enumerated once. A harness that compiles with std and fails without it because a serde trait is not implemented is reported as a violation (replay file names the build).",
         design="4/C17"),
     "C18": dict(
         technique="property-based testing (proptest) plus coverage-guided fuzzing (libFuzzer via cargo-fuzz, thorough tier) of all operation families; oracle: no panic inside the stated domain, the documented panic exactly for mixed units",
@@ -92,8 +92,8 @@ CHECKS = {
         design="4/C18"),
     "C19": dict(
         engine="E2-progen",
-        technique="enumeration of the 16 x 8 named feature configurations plus Hypothesis-generated random feature subsets, each built through a probe crate; differential comparison of a fixed operation corpus between minimal and full configurations",
-        text="Configurations are a finite space: the thorough tier builds all 128, the quick tier every row, every column for all/none and a seeded sample; random subsets come from Hypothesis (seeded, shrinking to a minimal failing set). The probe's expectations (which quantities and operators a feature must expose) come from the independent derivation table, so a missing Cargo feature edge is a failure.",
+        technique="enumeration of the 16 x 8 named feature configurations and of all 91 feature pairs plus Hypothesis-generated random feature subsets, each built through a probe crate; differential comparison of a fixed operation corpus between minimal and full configurations",
+        text="Configurations are a finite space: the thorough tier builds all 128, the quick tier every row, every column for all/none and a seeded sample; every pair of quantity features is built too (quick: two columns, thorough: all eight); random subsets come from Hypothesis (seeded, shrinking to a minimal failing set). The probe's expectations (which quantities and operators a feature must expose) come from the independent derivation table, so a missing Cargo feature edge is a failure.",
         note="trusted base: cargo's feature resolution and `cargo check` of a dependent crate; tables/catalogue.json",
         design="4/C19"),
 }
@@ -107,6 +107,8 @@ FUZZ_PROPS = ["C01", "C02", "C03", "C04", "C05", "C08", "C09", "C10", "C13", "C1
 
 
 def main():
+    for pid in ["C01", "C02", "C03", "C04", "C05", "C08", "C09", "C13", "C14", "C15"]:
+        CHECKS[pid]["technique"] += "; metamorphic history-independence relation (same call before and after a panel of unrelated library calls, in a fresh thread)"
     for pid in FUZZ_PROPS:
         CHECKS[pid]["technique"] += "; the thorough tier adds a coverage-guided libFuzzer campaign whose input bytes are the same tape, decoded and checked by the same code"
     checks = []
@@ -146,7 +148,7 @@ def main():
         "engines": [
             {"name": "E1-rust-harness", "path": "/verif/harness",
              "serves_properties": [p for p in ALL if p in CHECKS and CHECKS[p].get("engine", "E1-rust-harness") == "E1-rust-harness"],
-             "kind_free_text": "Rust crate linked against /repo (path dependency, rebuilt on every invocation), proptest 1.11 TestRunner with fixed seeds and shrinking, exact rational oracles, f64 and fpdec builds"},
+             "kind_free_text": "Rust crate linked against /repo (path dependency, rebuilt on every invocation), proptest 1.11 TestRunner with fixed seeds and shrinking, exact rational oracles, f64 and fpdec builds, each with debug assertions / overflow checks / std on and off"},
             {"name": "E2-progen", "path": "/verif/progen",
              "serves_properties": [p for p in ALL if p in CHECKS and CHECKS[p].get("engine") == "E2-progen"],
              "kind_free_text": "Python/Hypothesis generator of Rust programs compiled against /repo with cargo; rustc verdicts and program output compared with a model"},
